@@ -275,50 +275,40 @@ func execute(d *Data, ref *compiled, refRun *runResult, prodOps string, maxOut i
 	st.refOutputs = len(refRun.outs)
 	st.truncated = got.truncated || refRun.truncated
 	n := min(len(got.outs), len(refRun.outs))
-	for i := 0; i < n; i++ {
+	class, detail := "", ""
+	for i := 0; i < n && class == ""; i++ {
 		if got.outs[i] != refRun.outs[i] {
-			class := "output-differs"
-			if strings.Count(got.outs[i], "setpath(") > strings.Count(refRun.outs[i], "setpath(") {
-				// the listed finding, possibly embedded in a caught value or a preview: the optimised text
-				// carries the setpath wrapper and the difference vanishes when only the constant-path
-				// assignment shortcut is switched off on top of these coins
-				alt := compileForce(d, d, siteAssignSetpath())
-				if alt.code != nil {
-					ar := run(alt, d, maxOut)
-					same := ar.panicked == "" && len(ar.outs) == len(refRun.outs)
-					for k := 0; same && k < len(ar.outs); k++ {
-						same = ar.outs[k] == refRun.outs[k]
-					}
-					if same {
-						return mk(viol(d, "setpath-message-wrapper", "output #%d differs\n with these coins:            %s\n every optimisation skipped: %s", i, kernel.Short(got.outs[i]), kernel.Short(refRun.outs[i]))), st
-					}
-				}
-			}
+			class = "output-differs"
 			if i == got.errAt && i == refRun.errAt {
 				class = "error-differs"
-				if isSetpathWrapper(errMessage(got.outs[i]), errMessage(refRun.outs[i])) {
-					class = "setpath-message-wrapper"
-				}
-			} else if isSetpathWrapper(strValue(got.outs[i]), strValue(refRun.outs[i])) {
-				class = "setpath-message-wrapper" // the same message, observed through `catch`
 			}
-			return mk(viol(d, class, "output #%d differs\n with these coins:            %s\n every optimisation skipped: %s", i, kernel.Short(got.outs[i]), kernel.Short(refRun.outs[i]))), st
+			detail = fmt.Sprintf("output #%d differs\n with these coins:            %s\n every optimisation skipped: %s", i, kernel.Short(got.outs[i]), kernel.Short(refRun.outs[i]))
 		}
 	}
-	if !st.truncated && (len(got.outs) != len(refRun.outs) || got.ended != refRun.ended) {
-		return mk(viol(d, "output-differs", "%d outputs with these coins, %d with every optimisation skipped\n with these coins:            %s\n every optimisation skipped: %s", len(got.outs), len(refRun.outs), kernel.Short(fmt.Sprint(got.outs)), kernel.Short(fmt.Sprint(refRun.outs)))), st
+	if class == "" && !st.truncated && (len(got.outs) != len(refRun.outs) || got.ended != refRun.ended) {
+		class = "output-differs"
+		detail = fmt.Sprintf("%d outputs with these coins, %d with every optimisation skipped\n with these coins:            %s\n every optimisation skipped: %s", len(got.outs), len(refRun.outs), kernel.Short(fmt.Sprint(got.outs)), kernel.Short(fmt.Sprint(refRun.outs)))
 	}
-	return nil, st
-}
-
-// isSetpathWrapper recognises the listed known finding precisely: the optimised
-// error is the unoptimised message prefixed by `setpath(<path>; <v>) cannot be applied to <in>: `.
-func isSetpathWrapper(om, rm string) bool {
-	if om == "" || rm == "" || !strings.HasPrefix(om, "setpath(") {
-		return false
+	if class == "" {
+		return nil, st
 	}
-	k := strings.Index(om, " cannot be applied to ")
-	return k > 0 && strings.HasSuffix(om, ": "+rm)
+	// The listed finding, recognised by its cause: with the same coins, the difference vanishes when
+	// the constant-path assignment shortcut (still in use) reports a failed update without the
+	// `setpath(...) cannot be applied to` wrapper. Any other defect of the shortcut stays visible.
+	gojq.VerifBareSetpath = true
+	alt := compileWith(d, d)
+	gojq.VerifBareSetpath = false
+	if alt.code != nil && alt.panicked == "" {
+		ar := run(alt, d, maxOut)
+		same := ar.panicked == "" && len(ar.outs) == len(refRun.outs) && ar.ended == refRun.ended
+		for k := 0; same && k < len(ar.outs); k++ {
+			same = ar.outs[k] == refRun.outs[k]
+		}
+		if same {
+			class = "setpath-message-wrapper"
+		}
+	}
+	return mk(viol(d, class, "%s", detail)), st
 }
 
 // strValue decodes the typed encoding of a string output ("" if it is not a string).
